@@ -174,3 +174,22 @@ def shrCFast (t : ITy) (a b : Int) : Option Int :=
   rfl
 
 end Rt
+
+/-! builder L: unsigned `is_multiple_of` (std: `rhs == 0 → self == 0`, otherwise `self % rhs == 0`; never panics) -/
+namespace Rt
+
+def isMultipleOf (a b : Int) : Bool := if b = 0 then decide (a = 0) else decide (a % b = 0)
+
+end Rt
+
+/-! builder L: `heapless::Vec<T, CAP>` as a list with a capacity.  `push` returns `Err` (no panic) when
+full; `extend_from_slice` returns `Err` and copies nothing when the slice does not fit. -/
+namespace Rt
+
+def hvPushOk {α} (cap : Int) (l : List α) : Bool := decide ((l.length : Int) < cap)
+def hvPush {α} (cap : Int) (l : List α) (x : α) : List α := if (l.length : Int) < cap then l ++ [x] else l
+/-- the `Result` of `extend_from_slice`: `none` = `Err`, so that `.unwrap()` is a checked step -/
+def hvExtendOk {α} (cap : Int) (l s : List α) : Option Unit := if (l.length : Int) + (s.length : Int) ≤ cap then some () else none
+def hvExtend {α} (cap : Int) (l s : List α) : List α := if (l.length : Int) + (s.length : Int) ≤ cap then l ++ s else l
+
+end Rt
